@@ -2,7 +2,8 @@
 For every code object (recursively) of every .pyc in the list: explores all reachable
 (offset, stack depth) states with the interpreter's own dis.stack_effect and checks
   - no negative depth, max reachable depth <= co_stacksize,
-  - every jump / handler target is an instruction boundary inside the code,
+  - every jump / handler target is an instruction boundary inside the code; 3.11 exception-table
+    ranges are sorted, disjoint, on instruction boundaries, and never promise more stack than there is,
   - every const/name/local/free index in range,
   - every instruction's line inside 1..nlines.
 argv: <list.json> <out.jsonl>;  list: [{"id", "pyc", "nlines"}]
@@ -138,6 +139,13 @@ def check_code(co, nlines, viol, stats):
         viol.append({"kind": "line-outside-source", "code": name, "detail": "lines %s, source has %d lines" % (sorted(bad_lines)[:5], nlines), "module_level": name == "<module>"})
     # stack exploration
     handlers = parse_exception_table(co) if V >= (3, 11) else []
+    prev_end = 0
+    for (s, e, target, hdepth, lasti) in handlers:
+        if not (prev_end <= s < e <= size) or s not in offsets or (e not in offsets and e != size):
+            viol.append({"kind": "exception-table-range-invalid", "code": name, "detail": "entry %d..%d after an entry ending at %d (code size %d): ranges must be sorted, disjoint and on instruction boundaries" % (s, e, prev_end, size)})
+        if target not in offsets:
+            viol.append({"kind": "handler-target-not-an-instruction", "code": name, "detail": "entry %d..%d -> %d" % (s, e, target)})
+        prev_end = max(prev_end, e)
     blocky = V < (3, 8) and any(i.opname in BLOCKY37 for i in instrs)
     seen = set()
     work = [(0, 0)] if instrs else []
@@ -172,6 +180,10 @@ def check_code(co, nlines, viol, stats):
             succ.append((ins.argval, depth + jump))
         for (s, e, target, hdepth, lasti) in handlers:
             if s <= off < e and target in offsets:
+                if depth < hdepth:
+                    # the unwinder cuts the stack DOWN to hdepth; fewer values than that means the handler runs on garbage
+                    viol.append({"kind": "handler-depth-exceeds-stack", "code": name, "detail": "at %d depth %d, handler %d expects %d" % (off, depth, target, hdepth)})
+                    continue
                 succ.append((target, hdepth + 1 + (1 if lasti else 0)))
         for (o2, d2) in succ:
             trans += 1
